@@ -657,7 +657,13 @@ def walk_arms(n, stack=()):
 
 
 def arm_variants(stack, enum_suffix):
-    """last-segment names of the variants of the innermost enclosing arm whose patterns belong to `enum_suffix`"""
+    """last-segment names of the variants of the innermost enclosing arm whose patterns belong to `enum_suffix`.
+    `stack` is an arm stack of walk_arms, or a sem.Site (then the answer comes from its path condition: early returns,
+    let-else, matches!, helpers inlined from the same file are all seen)"""
+    if hasattr(stack, "pc"):
+        import sem
+        vs = sem.nested_variants(stack.pc, lambda v: True, enum_suffix)
+        return sorted(vs) if vs else None
     for ent in reversed(stack):
         if ent[0] == "if":
             continue
